@@ -54,6 +54,7 @@ CONSTANTS
   Mode = "%(mode)s"
   NNames = %(nnames)d
   MaxArity = %(arity)d
+  Stride2 = %(stride2)d
   Stride = %(stride)d
   Phase = %(phase)d
   MaxLex = %(maxlex)d
@@ -67,10 +68,10 @@ SHAPES = {
     "empty": "",
     "word": "Foo bar",
     "small": "3",
-    "huge": "9999999",
+    "huge": "300000",
     "negative": "-5",
     "decimal": "2.5",
-    "exponent": "1e600000",
+    "exponent": "1e5000000",
     "path": "Aa/Bb/Cc",
     "nested": "{{lc:ABC}}",
     "oversize": "x" * 270000 + "{{lc:Y}}",
@@ -112,6 +113,18 @@ def name_table(lang):
     return sorted(names)
 
 
+_ALIAS = {}
+
+
+def canonical(lang, name):
+    """The function a site alias stands for (what the running code resolves it to)."""
+    if lang not in _ALIAS:
+        from mwlib.network import siteinfo
+        from mwlib.parser.templ.parser import AliasMap
+        _ALIAS[lang] = AliasMap(siteinfo.get_siteinfo(lang))
+    return (_ALIAS[lang].resolve_magic_alias(name) or name).upper()
+
+
 def call_text(name, shapes):
     if not shapes:
         return "{{%s}}" % name
@@ -140,7 +153,7 @@ def errclass(err):
     return type(err).__name__
 
 
-def measure(db, text, lang_unused=None, limit=None):
+def measure(db, text, mem=False, limit=None):
     """One real expansion under the step counter and tracemalloc.
     -> dict(ok, out_len, steps, peak, err, where, cls)"""
     import tracemalloc
@@ -148,7 +161,8 @@ def measure(db, text, lang_unused=None, limit=None):
     from harness.templwiki import StepCounter, expand
     kw = {} if limit is None else {"recursion_limit": limit}
     r = {"ok": False, "out_len": 0, "steps": 0, "peak": 0, "err": None, "where": None, "cls": None, "count": None}
-    tracemalloc.start()
+    if mem:
+        tracemalloc.start()
     signal.signal(signal.SIGALRM, _alarm)
     signal.alarm(WATCHDOG_S)
     sc = StepCounter()
@@ -171,36 +185,38 @@ def measure(db, text, lang_unused=None, limit=None):
         signal.alarm(0)
         import sys
         sys.setprofile(None)
-        r["peak"] = tracemalloc.get_traced_memory()[1]
-        tracemalloc.stop()
+        if mem:
+            r["peak"] = tracemalloc.get_traced_memory()[1]
+            tracemalloc.stop()
     return r
 
 
 def judge_call(lang, name, shapes, twin, db, cache):
     """-> list of (key, what, replay)"""
     text = call_text(name, shapes)
-    m = measure(db, text)
+    m = measure(db, text, mem=bool(twin))
+    fn = canonical(lang, name)
     rep = {"kind": "call", "lang": lang, "name": name, "shapes": shapes, "twin": twin, "text": text[:300]}
     out = []
     arglen = sum(len(SHAPES[s]) for s in shapes) + len(name)
     if not m["ok"]:
-        out.append(("expandTemplates %s %s name=%s arity=%d lang=%s" % (m["cls"], m["where"], name.upper(), len(shapes), lang),
+        out.append(("expandTemplates %s %s fn=%s name=%s arity=%d lang=%s" % (m["cls"], m["where"], fn, name.upper(), len(shapes), lang),
                     "%s raised/failed: %s" % (text[:120], m["err"]), rep))
         return out
     if m["out_len"] > OUT_C * arglen + OUT_K:
-        out.append(("disproportionate output name=%s shapes=%s lang=%s" % (name.upper(), ",".join(shapes), lang),
+        out.append(("disproportionate fn=%s kind=output name=%s shapes=%s lang=%s" % (fn, name.upper(), ",".join(shapes), lang),
                     "%s: %d characters of output for %d characters of arguments" % (text[:120], m["out_len"], arglen), rep))
     if twin:
         tk = (name, tuple(twin))
         if tk not in cache:
-            cache[tk] = measure(db, call_text(name, twin))
+            cache[tk] = measure(db, call_text(name, twin), mem=True)
         t = cache[tk]
         if t["ok"]:
-            if m["steps"] > STEP_FLOOR and m["steps"] > STEP_RATIO * max(1, t["steps"]):
-                out.append(("disproportionate work name=%s shapes=%s lang=%s" % (name.upper(), ",".join(shapes), lang),
+            if m["steps"] > STEP_FLOOR and m["steps"] > STEP_RATIO * max(1, t["steps"]) and m["steps"] > 40 * arglen:
+                out.append(("disproportionate fn=%s kind=work name=%s shapes=%s lang=%s" % (fn, name.upper(), ",".join(shapes), lang),
                             "%s: %d call events, its small twin %s: %d" % (text[:120], m["steps"], call_text(name, twin)[:80], t["steps"]), rep))
             if m["peak"] > MEM_FLOOR and m["peak"] > MEM_RATIO * max(1, t["peak"]) and m["peak"] > 20 * arglen:
-                out.append(("disproportionate allocation name=%s shapes=%s lang=%s" % (name.upper(), ",".join(shapes), lang),
+                out.append(("disproportionate fn=%s kind=allocation name=%s shapes=%s lang=%s" % (fn, name.upper(), ",".join(shapes), lang),
                             "%s: peak %d bytes for %d characters of arguments, its small twin: %d bytes" % (text[:120], m["peak"], arglen, t["peak"]), rep))
     return out
 
@@ -362,7 +378,7 @@ def run(ctx):
         ctx.machinery("TemplateVM coverage run: ok=%s, actions never taken: %s" % (cov.ok, missing))
     nonvac = {}
     for label, kw, want in (("SwallowDepth=0", dict(swallow=0), ("invariant", "NoEscape")),
-                            ("Decrement=FALSE", dict(dec=False), ("invariant", "CounterRestored"))):
+                            ("Decrement=FALSE", dict(dec=False), ("invariant", "NoEscape"))):   # the counter stays high: nobody swallows
         r = tlc.run(ctx, "TemplateVM", vm_cfg(1, 2, emit=False, **kw), name="TemplateVM_nv", timeout=600)
         nonvac[label] = [r.kind, r.name]
         if (r.kind, r.name) != want:
@@ -376,7 +392,7 @@ def run(ctx):
                     (len(c["out"]) < sum(1 for x in c["page"] if x == "a")))
 
     # ---- 2. magic words / parser functions
-    langs = ["en", "de"] if quick else ["en", "de", "fr", "ja", "es", "it", "nl", "pl", "pt", "sv", "no", "simple"]
+    langs = ["en"] if quick else ["en", "de", "fr", "ja", "es", "it", "nl", "pl", "pt", "sv", "no", "simple"]
     n_calls = 0
     names_total = 0
     samples = []
@@ -384,9 +400,10 @@ def run(ctx):
         names = name_table(lang)
         names_total += len(names)
         full3 = (not quick) and lang == "en"
-        stride = 1 if full3 else (40 if quick else 10)
-        res = tlc.run(ctx, "MagicCalls", MC_CFG % dict(mode="calls", nnames=len(names), arity=3, stride=stride,
-                                                       phase=(ctx.seed + li) % stride, maxlex=1),
+        stride = 1 if full3 else (200 if quick else 10)
+        stride2 = 10 if quick else 1
+        res = tlc.run(ctx, "MagicCalls", MC_CFG % dict(mode="calls", nnames=len(names), arity=3, stride=stride, stride2=stride2,
+                                                       phase=ctx.seed + li, maxlex=1),
                       name="MagicCalls_%s" % lang, timeout=2400, heap="10g")
         if not res.ok:
             ctx.machinery("spec MagicCalls (%s) violates %s %s\n%s" % (lang, res.kind, res.name, res.out[-1200:]))
@@ -407,7 +424,7 @@ def run(ctx):
             samples.append({"lang": lang, "call": call_text(names[c["n"] - 1], c["s"])[:200]})
 
     # ---- 3. junk over the template alphabet
-    res = tlc.run(ctx, "MagicCalls", MC_CFG % dict(mode="junk", nnames=1, arity=0, stride=1, phase=0, maxlex=3),
+    res = tlc.run(ctx, "MagicCalls", MC_CFG % dict(mode="junk", nnames=1, arity=0, stride=1, stride2=1, phase=0, maxlex=3),
                   name="MagicCalls_junk", coverage=True, timeout=1200)
     if not res.ok or tlc.uncovered_actions(res, ["Hand"]):
         ctx.machinery("spec MagicCalls (junk) failed: %s %s" % (res.kind, res.name))
@@ -420,8 +437,10 @@ def run(ctx):
     allbad.extend(bad)
 
     allbad.sort(key=lambda b: (len(b[0]), b[0]))
+    unknown = 0
     for key, what, rep in allbad:
-        ctx.violation(key, what, rep)
+        if unknown < 25 and ctx.violation(key, what, rep):       # replay files for the 25 shortest unknown ones
+            unknown += 1
     ctx.set_cover(evaluations=n_vm + n_calls + n_junk,
                   distinct_nontrivial=deep + n_calls + n_junk,
                   states=states, transitions=trans, traces_validated_against_impl=n_vm,
@@ -432,7 +451,7 @@ def run(ctx):
                   rule="(1) every terminal behaviour of TemplateVM.tla (all call graphs on NT templates with bodies of <= 2 items, 33 pages, "
                        "Limit in {2,3,4}; plans %r) replayed on the real Expander — non-trivial = nesting deeper than 2; (2) every call "
                        "TLC enumerates from MagicCalls.tla over the name table generated from the running code for sites %r (arity 0..2 "
-                       "complete, arity 3 thinned by stride unless thorough/en) — each is a distinct (name, shapes) input; (3) every "
+                       "complete in thorough; in quick arity 0..1 complete, arity 2 / 3 thinned by strides 10 / 200) — each is a distinct (name, shapes) input; (3) every "
                        "sequence of <= 3 lexemes over the 23-lexeme template alphabet, as page and as template body" % (vm_plans, langs))
     for c in vm_cases[:: max(1, len(vm_cases) // 2)][:2]:
         ctx.sample({"univ": c["univ"], "page": c["page"], "limit": c["limit"], "predicted_out": c["out"], "predicted_lookups": c["log"]})
@@ -443,7 +462,7 @@ def run(ctx):
     ctx.assume("proportionality is measured, not modelled: output <= %d*len(arguments)+%d, call events and peak traced allocation "
                "of an inflated call <= %dx its small twin (floors %d events / %d bytes)" % (OUT_C, OUT_K, STEP_RATIO, STEP_FLOOR, MEM_FLOOR),
                "sys.setprofile call/c_call events and tracemalloc peaks are deterministic for a given input",
-               "the huge number is 9999999 and the exponent 1e600000 (large enough to show disproportion, small enough not to exhaust the sandbox)",
+               "the huge number is 300000 and the exponent 1e5000000 (large enough to show disproportion, small enough not to exhaust the sandbox)",
                "the wiki database is a production archive (FsOutput + nuwiki.Adapt)")
 
 
